@@ -941,3 +941,160 @@ func (sf *selectionFlags) cellSound(c localCell) bool {
 	sf.memo[c] = res
 	return res
 }
+
+// ---------------------------------------------------------------------------
+// Variables captured by function literals. A local variable or parameter that a function literal refers to lives
+// in a memory cell (an Alloc of the function that declares it); the declaring function reads it by loading from
+// the cell, a literal by loading from the free variable the cell is bound to when the literal is created (a literal
+// nested in a literal gets it from its parent's free variable). Such a read yields ONE known value when the cell is
+// written exactly once - by the declaring function, before any literal that captures it is created - and neither the
+// declaring function nor any literal that gets hold of the cell does anything with it but load it (or hand it on to a
+// nested literal that only loads it). Then, whenever and however often a literal runs, the variable has the value
+// stored. This is what `func() error { return s.reproduce(ctx, generation, population) }` reads for ctx when the
+// enclosing function never assigns to its parameter.
+
+// c08CapturedValue: load reads such a variable - in the declaring function or in a literal (at any depth) that
+// captures it; the result is the value the variable always holds. ok=false: load is something else, or the variable
+// may hold other values.
+func c08CapturedValue(load ssa.Value) (ssa.Value, bool) {
+	u, ok := load.(*ssa.UnOp)
+	if !ok || u.Op != token.MUL {
+		return nil, false
+	}
+	// the cell: follow the free variable up to the allocation it was bound to
+	ref := u.X
+	for depth := 0; depth < 8; depth++ {
+		fv, isFV := ref.(*ssa.FreeVar)
+		if !isFV {
+			break
+		}
+		lit := fv.Parent()
+		if lit == nil || lit.Parent() == nil {
+			return nil, false
+		}
+		idx := -1
+		for i, f := range lit.FreeVars {
+			if f == fv {
+				idx = i
+			}
+		}
+		if idx < 0 {
+			return nil, false
+		}
+		// every creation of the literal binds the free variable to the same variable of the parent
+		var bound ssa.Value
+		n := 0
+		Instrs(lit.Parent(), func(_ *ssa.BasicBlock, _ int, in ssa.Instruction) {
+			mc, isMC := in.(*ssa.MakeClosure)
+			if !isMC || mc.Fn != ssa.Value(lit) {
+				return
+			}
+			n++
+			if idx < len(mc.Bindings) && (bound == nil || bound == mc.Bindings[idx]) {
+				bound = mc.Bindings[idx]
+			} else {
+				n = -1 << 20
+			}
+		})
+		if n <= 0 || bound == nil {
+			return nil, false
+		}
+		ref = bound
+	}
+	cell, ok := ref.(*ssa.Alloc)
+	if !ok || cell.Referrers() == nil {
+		return nil, false
+	}
+	var st *ssa.Store
+	var makers []*ssa.MakeClosure
+	for _, r := range *cell.Referrers() {
+		switch x := r.(type) {
+		case *ssa.Store:
+			if x.Addr != ssa.Value(cell) || x.Val == ssa.Value(cell) || st != nil {
+				return nil, false
+			}
+			st = x
+		case *ssa.UnOp:
+			if x.Op != token.MUL {
+				return nil, false
+			}
+		case *ssa.MakeClosure:
+			if !c04ClosureOnlyLoads(x, cell, 0) {
+				return nil, false
+			}
+			makers = append(makers, x)
+		case *ssa.DebugRef:
+		default:
+			return nil, false
+		}
+	}
+	if st == nil {
+		return nil, false
+	}
+	if u.Parent() == cell.Parent() {
+		// a read by the declaring function itself: after the store
+		if !instrDominates(st, u) {
+			return nil, false
+		}
+	}
+	// no literal that captures the variable exists before the variable has its value
+	for _, mc := range makers {
+		if !instrDominates(st, mc) {
+			return nil, false
+		}
+	}
+	return st.Val, true
+}
+
+// c08Encloses: outer is fn or a function fn is (transitively) a literal of.
+func c08Encloses(outer, fn *ssa.Function) bool {
+	for f := fn; f != nil; f = f.Parent() {
+		if f == outer {
+			return true
+		}
+	}
+	return false
+}
+
+// c08Outermost: the declared function fn is (a literal of a literal of ...) part of.
+func c08Outermost(fn *ssa.Function) *ssa.Function {
+	for fn.Parent() != nil {
+		fn = fn.Parent()
+	}
+	return fn
+}
+
+// c08LiteralCallSites: the calls that can run function literal lit inside the declared function it is part of: calls
+// of a function VALUE (not of a named function, not through an interface) whose type is lit's signature, made by that
+// declared function or any literal of it - and calls of the literal where it is created. An over-approximation of the
+// literal's call sites within the function (any function value of the same type may be the literal).
+func c08LiteralCallSites(lit *ssa.Function) []ssa.CallInstruction {
+	var out []ssa.CallInstruction
+	var visit func(f *ssa.Function)
+	visit = func(f *ssa.Function) {
+		Instrs(f, func(_ *ssa.BasicBlock, _ int, in ssa.Instruction) {
+			c, ok := in.(ssa.CallInstruction)
+			if !ok || c.Common().IsInvoke() {
+				return
+			}
+			cc := c.Common()
+			if callee := cc.StaticCallee(); callee != nil {
+				if callee == lit {
+					out = append(out, c)
+				}
+				return
+			}
+			if _, isBuiltin := cc.Value.(*ssa.Builtin); isBuiltin {
+				return
+			}
+			if sig, isSig := cc.Value.Type().Underlying().(*types.Signature); isSig && types.Identical(sig, lit.Signature) {
+				out = append(out, c)
+			}
+		})
+		for _, a := range f.AnonFuncs {
+			visit(a)
+		}
+	}
+	visit(c08Outermost(lit))
+	return out
+}
